@@ -360,14 +360,14 @@ def harnesses(tier: str) -> List[H]:
                          tiers=(tier,), timeout=900,
                          family="bodies of f0/f1 call functions too (fuel-bounded; first callee of f0's body: %d); "
                                 "recursive calls made by a body must be checked" % v, family_size=4 ** 4 * 2))
-            params = [I("top", 0, 1), E("e2"), E("p0"), E("c0"), E("c1"), E("b0")]
+            params = [I("top", 0, 1), E("p0"), E("c0"), E("c1"), E("b0")]
             d = dict(base)
             d["e0"] = v
             d["fuel"] = 1
             out.append(H("graph_post" + sfx, bind(run_graph, (True,), ALL, d, [p.name for p in params]), params,
                          tiers=(tier,), timeout=900,
                          family="functions with pre-/postconditions and snapshot captures, all calling functions (first "
-                                "callee of f0's precondition: %d)" % v, family_size=4 ** 5 * 2))
+                                "callee of f0's precondition: %d)" % v, family_size=4 ** 4 * 2))
     else:
         for top in range(3):
             params = [E("e0"), E("e1"), E("e2"), E("e3"), E("e4"), E("e5"), B("t0"), B("t1"), B("t2")]
